@@ -453,9 +453,10 @@ func (i *Interface) SetAbsoluteExpiry(key string, time int64) error {
 	r.Lock()
 	defer r.Unlock()
 
+	before := *r.Meta()
 	i.options.Apply(r)
 	r.Meta().SetAbsoluteExpiry(time)
-	return db.Put(r)
+	return putChanged(db, r, before)
 }
 
 // SetRelativateExpiry sets a relative (self-updating) record expiry.
@@ -468,9 +469,10 @@ func (i *Interface) SetRelativateExpiry(key string, duration int64) error {
 	r.Lock()
 	defer r.Unlock()
 
+	before := *r.Meta()
 	i.options.Apply(r)
 	r.Meta().SetRelativateExpiry(duration)
-	return db.Put(r)
+	return putChanged(db, r, before)
 }
 
 // MakeSecret marks the record as a secret, meaning interfacing processes, such as an UI, are denied access to the record.
@@ -483,9 +485,10 @@ func (i *Interface) MakeSecret(key string) error {
 	r.Lock()
 	defer r.Unlock()
 
+	before := *r.Meta()
 	i.options.Apply(r)
 	r.Meta().MakeSecret()
-	return db.Put(r)
+	return putChanged(db, r, before)
 }
 
 // MakeCrownJewel marks a record as a crown jewel, meaning it will only be accessible locally.
@@ -498,9 +501,10 @@ func (i *Interface) MakeCrownJewel(key string) error {
 	r.Lock()
 	defer r.Unlock()
 
+	before := *r.Meta()
 	i.options.Apply(r)
 	r.Meta().MakeCrownJewel()
-	return db.Put(r)
+	return putChanged(db, r, before)
 }
 
 // Delete deletes a record from the database.
@@ -518,13 +522,26 @@ func (i *Interface) Delete(key string) error {
 	r.Lock()
 	defer r.Unlock()
 
+	before := *r.Meta()
 	i.options.Apply(r)
 	r.Meta().Delete()
 
 	// Remove the record from the cache, it would be served from there otherwise.
 	i.updateCache(r, false, true, 0)
 
-	return db.Put(r)
+	return putChanged(db, r, before)
+}
+
+// putChanged stores a fetched record whose metadata was changed in place. If
+// the write is refused (by a hook or by the storage), the metadata is put
+// back: a storage that hands out the objects it holds would otherwise keep
+// the change of an operation that did not happen.
+func putChanged(db *Controller, r record.Record, before record.Meta) error {
+	err := db.Put(r)
+	if err != nil {
+		*r.Meta() = before
+	}
+	return err
 }
 
 // Query executes the given query on the database.
